@@ -470,6 +470,7 @@ pub fn check_main(prop: &Prop, tier: Tier, seed: u64) -> i32 {
     let t0 = now_s();
     sweep_stale_scratch();
     crate::props::c15::restore_if_orphaned();
+    crate::props::c14::restore_if_orphaned();
     let lanes = (prop.lanes)(tier).max(1);
     let exe = std::env::current_exe().expect("current_exe");
     let tmp = crate::sandbox::scratch_base().join(format!("pv.lanes.{}", std::process::id()));
